@@ -52,7 +52,7 @@ def run(chk):
                     'harness/shape.py: AST lookup of the statements mirrored by the hand model (Gen/C09Shape.v)',
                     'modelled not verified: Python str slicing / str.find / str.startswith / str.endswith / `in` / '
                     'str.translate(dict) / re.split on the literal class [ \\t\\n\\r]+ as written in C09/Model.v; '
-                    'upper-case/lower-case (str.upper/lower), non-codepoint collations, URI escaping (urllib.quote) are not modelled',
+                    'upper-case/lower-case (str.upper/lower) and non-codepoint collations are not modelled; urllib.parse.quote is modelled as in C09/UriEscape.v (always-safe set read from the running interpreter, UTF-8 + %HH), tied by correspondence',
                     'helpers.round_number is modelled by C06.round_md (proved = floor(x+1/2))']
     st = gen_c09.generate()
     for k, v in st.items():
@@ -262,6 +262,59 @@ def run(chk):
         want = [s, len(cps(s))] if s else ['', 0]
         if r[0] != 'val' or list(r[1]) != want:
             chk.violation('impl-vs-spec', {'expr': 'codepoints round trip / string-length', 's': repr(s)}, {'impl': repr(r), 'spec': want})
+    # ---- URI escaping (C09/UriEscape.v): the three functions on strings over every class of character, under the 2.0 and 3.1
+    # parsers, against the code model (quote with the extracted safe sets) and the F&O definition; string-length in code points,
+    # the code point round trip and the substring-before / after law on the same strings
+    from elementpath import select as _select, ElementPathError as _EPE
+    from elementpath.xpath31 import XPath31Parser as _P31
+    import xml.etree.ElementTree as _ET
+    proved_u = chk.prove(['theories/Gen/C09UriSafe.v', 'theories/C09/UriEscape.v', 'theories/C09/UriEscapeProofs.v'], 'theories/C09/UriEscapeProperties.v')
+    UCH = [chr(c) for c in range(32, 127)] + ['\t', '\n', '\r', '\x7f', '\x80', '\xa0', '\xe9', '\u07ff', '\u0800', '\u20ac', '\ud7ff', '\ue000', '\ufffd',
+                                               '\U00010000', '\U0001F600', '\U0010FFFF']
+    ustrs = [c for c in UCH] + [''.join(rng.choice(UCH) for _ in range(rng.randint(0, 8))) for _ in range(120 if quick else 6000)] + ['']
+    FN = ['encode-for-uri', 'iri-to-uri', 'escape-html-uri']
+    terms = [f'run_uri {k} {core.zlist([ord(c) for c in x])}' for x in ustrs for k in range(3)]
+    umodel = core.run_coq_cases('C09', IMPORTS, terms, chunk=400, tag='uri') if model_ok else [None] * len(terms)
+    _root = _ET.XML('<r/>')
+    it = iter(umodel)
+    for x in ustrs:
+        for k in range(3):
+            mo = next(it)
+            if mo is None:
+                continue
+            for P in (XPath2Parser, _P31):
+                chk.evaluations += 1
+                chk.count('uri:' + FN[k])
+                desc = {'fn': FN[k], 'string (code points)': [ord(c) for c in x], 'parser': P.__name__}
+                try:
+                    got = [ord(c) for c in _select(_root, f'{FN[k]}($s)', variables={'s': x}, parser=P)]
+                except _EPE as ex:
+                    got = ['error', str(ex.code)]
+                if got != list(mo[0]):
+                    chk.corr_fail.append((desc, got, list(mo[0])))
+                if got != list(mo[1]):
+                    chk.violation('impl-vs-spec', desc, {'impl': ''.join(map(chr, got)) if got[:1] != ['error'] else got, 'F&O definition': ''.join(map(chr, mo[1]))})
+            if x:
+                chk.nontrivial.add(repr(('uri', k, x)))
+        # string functions on the same strings: lengths in code points, code point round trip, the before / after law
+        chk.evaluations += 1
+        chk.count('codepoints')
+        try:
+            r = _select(_root, '(string-length($s), codepoints-to-string(string-to-codepoints($s)) eq $s, count(string-to-codepoints($s)), '
+                               'string-join(for $c in string-to-codepoints($s) return string($c), ","))', variables={'s': x}, parser=_P31)
+            want = [len(x), True, len(x), ','.join(str(ord(c)) for c in x)]
+            if r != want:
+                chk.violation('impl-vs-spec', {'fn': 'string-length / codepoints', 'string (code points)': [ord(c) for c in x]}, {'impl': repr(r)[:200], 'spec': repr(want)[:200]})
+        except _EPE as ex:
+            chk.violation('impl-vs-spec', {'fn': 'string-length / codepoints', 'string (code points)': [ord(c) for c in x]}, 'raised ' + str(ex)[:200])
+        if len(x) >= 2:
+            i = rng.randrange(len(x))
+            t = x[i:i + rng.randint(1, 2)]
+            chk.evaluations += 1
+            chk.count('before-after-law')
+            r = _select(_root, 'concat(substring-before($s, $t), $t, substring-after($s, $t)) eq $s and contains($s, $t)', variables={'s': x, 't': t}, parser=_P31)
+            if r is not True:
+                chk.violation('impl-vs-spec', {'fn': 'concat(substring-before(s,t), t, substring-after(s,t)) = s', 's': ascii(x), 't': ascii(t)}, {'impl': r})
     chk.rule = ('substring on boundary positions (halves, +-INF, NaN, doubles next to .5) x strings with astral/combining '
                 'characters; exhaustive strings <=3 over {a,b} for contains/starts-with/ends-with/substring-before/after; '
                 'seeded random translate / normalize-space / compare cases; non-trivial = non-empty result or a search '
